@@ -23,6 +23,11 @@
 (*                              run-time condition) in front of the body      *)
 (*   nest   n op x y            for i < n { for j < 2 { v = v op y } }        *)
 (*   loopi  n op x              v := x; for i < n { v = v op T(i) }           *)
+(*   expr3  op1 op2 x y z       v := x op1 y op2 z   written WITHOUT parentheses   *)
+(*                              (op2 = ExprOpList[c]):                          *)
+(*                              Go's precedence (times, and, and-not bind     *)
+(*                              tighter than plus, minus, or, xor)            *)
+(*                              and left associativity decide the grouping    *)
 (*   shadow c x y               a local that shadows a package-level variable,*)
 (*                              a run-time if that does not touch it, a read  *)
 (*   arr    x y z / idx A i / aset A i x      arrays of three elements     *)
@@ -117,6 +122,11 @@ Shift(op, x, c) ==
 \* rule in ast/ssagen.go is transcribed)
 Cast(t, x) == IF IsSigned(x.t) /\ IsSigned(t) THEN Wrap(t, SVal(x)) ELSE Wrap(t, x.v)
 
+\* Go's binary operator precedence, which MPCL follows: level 5 for times, and, and-not; level 4 for plus, minus, or, xor
+ExprOpList == <<"+", "-", "*", "&", "|", "^", "&^">>
+ExprOps == {ExprOpList[i] : i \in 1..Len(ExprOpList)}
+Prec(op) == IF op \in {"*", "&", "&^"} THEN 5 ELSE 4
+
 (***************************************************************************)
 (* Programs                                                                *)
 (***************************************************************************)
@@ -135,7 +145,7 @@ TypesOf(p, n) ==   \* sequence of the types of variables 1..2+n
     ELSE LET ts == TypesOf(p, n - 1)
              s == p.stmts[n]
              t == CASE s.k = "const" -> <<s.t>>
-                    [] s.k \in {"bin", "binlit", "neg", "shift", "loop", "loopret", "looprc", "nest", "loopi", "shadow"} -> <<ts[s.x]>>
+                    [] s.k \in {"bin", "binlit", "neg", "shift", "loop", "loopret", "looprc", "nest", "loopi", "shadow", "expr3"} -> <<ts[s.x]>>
                     [] s.k \in {"cmp", "cmplit", "logic", "not"} -> <<BT>>
                     [] s.k = "cast" -> <<s.t>>
                     [] s.k \in {"if", "ifnest", "ifcall"} -> <<ts[s.x]>>
@@ -202,6 +212,8 @@ AddStmt ==
                 add(S("nest", x, y, 0, op, <<>>, n))
           \/ "nest" \in Kinds /\ \E x \in {v \in ints : W(ts[v]) >= 3} : \E op \in {"+", "-", "^"} : \E n \in {1, 3} :
                 add(S("loopi", x, 0, 0, op, <<>>, n))
+          \/ "expr3" \in Kinds /\ \E x \in ints : \E y \in {v \in ints : ts[v] = ts[x]} : \E z \in {v \in ints : ts[v] = ts[x]} :
+                \E op1 \in ExprOps : \E i2 \in 1..Len(ExprOpList) : add(S("expr3", x, y, z, op1, <<>>, i2))
           \/ "shadow" \in Kinds /\ \E c \in bools : \E x \in ints : \E y \in {v \in ints : ts[v] = ts[x]} :
                 add(S("shadow", x, y, c, "", <<>>, 0))
           \/ "arr" \in Kinds /\ \E x \in ints : \E y \in {v \in ints : ts[v] = ts[x]} : \E z \in {v \in ints : ts[v] = ts[x]} :
@@ -284,6 +296,9 @@ Exec(p, i, env) ==
                            Iti(j, acc) == IF j = s.c THEN acc ELSE Iti(j + 1, Bin(s.op, acc, Val(x.t, j)))
                        IN <<Iti(0, x)>>
                   \* g := x (shadows a package-level g); t := y; if c { t = t + 1 }; v := g + t
+                  [] s.k = "expr3" -> <<IF Prec(ExprOpList[s.c]) > Prec(s.op)
+                                         THEN Bin(s.op, x, Bin(ExprOpList[s.c], y, env[s.z]))
+                                         ELSE Bin(ExprOpList[s.c], Bin(s.op, x, y), env[s.z])>>
                   [] s.k = "shadow" -> <<Bin("+", x, IF env[s.z].v = 1 THEN BinL("+", y, 1) ELSE y)>>
                   [] s.k = "arr" -> <<[t |-> ArrT(x.t), v |-> <<x, y, env[s.z]>>]>>
                   [] s.k = "idx" -> <<x.v[s.c + 1]>>
